@@ -43,7 +43,7 @@ let obs_ids (s : string) : int list =
 
 let predict (c : string) (obs : string) : string * string * bool =
   match split_blank c with
-  | ["pair"; kind; lim; pas; tags; chosen; cancel] ->
+  | "pair" :: kind :: lim :: pas :: tags :: chosen :: cancel :: _eof ->   (* the EOF layout does not change the entries *)
       let lim = int_of_string lim and pas = int_of_string pas in
       let es = List.mapi (fun i t -> { e_tag = nat_of_int t; e_id = nat_of_int i }) (ints tags) in
       let ch = List.map nat_of_int (ints chosen) in
